@@ -225,6 +225,10 @@ class Harness:
         for f in (N.count, N.successes, N.last_failure, N.trips):
             if f is not None:
                 obj.fields[f] = Unknown(f)
+        if N.last_failure is not None and state != "CLOSED":
+            # state invariant (C08-R1 checks that whoever opens the breaker stamps the time): an OPEN / HALF_OPEN breaker has
+            # a recorded failure time — arbitrary, but never None
+            obj.fields[N.last_failure] = Unknown(N.last_failure, kind="datetime")
         it.events.clear()
         it.decisions.clear()
         it.watch_fields = {("CoherentFeedForwardLoop", f) for f in (N.state, N.count, N.last_failure, N.trips)}
